@@ -2109,6 +2109,14 @@ def decode_can_helper(ea, float_factory, ignore_cluster_info):
                             pass
                         db.add_ecu(ecu)
                 db.add_frame(frame)
+        if ignore_cluster_info is not True:
+            # ECUs connected to the cluster that neither send nor receive a frame
+            for connector in ea.selector(cc, ">>COMMUNICATION-CONNECTOR-REF"):
+                ecu_elem = ea.get_ecu_instance(element=connector)
+                if ecu_elem is not None:
+                    if ecu_elem not in nodes:
+                        nodes[ecu_elem] = process_ecu(ecu_elem, ea)
+                    db.add_ecu(nodes[ecu_elem])
         for frame in db.frames:
             if frame.is_pdu_container:
                 continue
